@@ -438,7 +438,7 @@ func runHistory(h *History) *RunReport {
 				want = &r.oneshot
 				class, what = "oneshot-history", fmt.Sprintf("one-shot Search(%q)", src)
 			}
-			same := sameOutcome(&got, want)
+			same := sameOutcome(&got, want) || want.Kind == "stepcap" // a reference that ran out of budget says nothing
 			if !same && saltChanged && orderSensitive(src) && got.Kind == "value" && want.Kind == "value" {
 				// the object was created under another member order than the one in force now:
 				// an implementation may legitimately have fixed an order earlier (constant
